@@ -2,6 +2,7 @@ use rusty_parser::BuiltInFunction;
 
 use crate::RuntimeError;
 use crate::interpreter::interpreter_trait::InterpreterTrait;
+use crate::interpreter::variant_casts::integer_from_size;
 
 pub fn run<S: InterpreterTrait>(interpreter: &mut S) -> Result<(), RuntimeError> {
     let path = interpreter
@@ -9,10 +10,10 @@ pub fn run<S: InterpreterTrait>(interpreter: &mut S) -> Result<(), RuntimeError>
         .variables()
         .get_arg_path(0)
         .expect("VARPTR should have a variable");
-    let address = interpreter.context().calculate_varptr(path)?;
+    let address = integer_from_size(interpreter.context().calculate_varptr(path)?)?;
     interpreter
         .context_mut()
-        .set_built_in_function_result(BuiltInFunction::VarPtr, address as i32);
+        .set_built_in_function_result(BuiltInFunction::VarPtr, address);
     Ok(())
 }
 
